@@ -161,6 +161,20 @@ static double quad(dvector *v) {
 }
 static void gen_simplex(Draw &d, Case &c) {
   int dim = (int)d.i(2, 6);
+  if (d.coin(35)) {
+    // structured configurations: axis-aligned quadratics with small integer curvatures, integer minimiser, start point and steps on
+    // a half-integer grid - symmetric simplices on which objective values TIE exactly (a continuous draw never produces a tie)
+    M A(dim, dim); bool iso = d.coin(50);
+    for (int i = 0; i < dim; i++) A(i, i) = iso ? 1.0 : (double)d.i(1, 4);
+    c.p = {dim}; put(c, A);
+    for (int i = 0; i < dim; i++) c.v.push_back((double)d.i(-5, 5));
+    c.v.push_back((double)d.i(-10, 10));
+    for (int i = 0; i < dim; i++) c.v.push_back((double)d.i(-8, 8) / 2);
+    for (int i = 0; i < dim; i++) c.v.push_back((d.coin(50) ? 1 : -1) * d.pick<double>({0.5, 1.0, 1.0, 2.0}));
+    c.nontrivial = true;
+    c.tags.push_back(fmt("dim=%d", dim)); c.tags.push_back("grid-aligned(ties)");
+    return;
+  }
   M Q = gen_orthonormal(d, dim, dim); V ev(dim); double kap = d.real(1, 100);
   for (int i = 0; i < dim; i++) ev[i] = std::pow(kap, (double)i / std::max(1, dim - 1)) * d.pick<double>({1.0, 1.0, 0.01, 100.0});
   { double sc = (double)ev[0]; for (auto &e : ev) e = e / sc * sc; }
